@@ -8,6 +8,7 @@ import (
 	"strings"
 
 	"verifharness/checks/c01"
+	"verifharness/checks/c03"
 	"verifharness/core"
 )
 
@@ -18,6 +19,7 @@ type entry struct {
 
 var table = map[string]entry{
 	"C01": {"exploration", c01.Run},
+	"C03": {"fault_enumeration", c03.Run},
 }
 
 func main() {
